@@ -58,6 +58,14 @@ func (p *prop) Generate(rng *core.Rand, tier string, emit func(string)) {
 	for i := 0; i < nSite/4; i++ {
 		emit(genArgIdxCase(rh))
 	}
+	// ---- parser glue vs model: {$ENV} substitution before lexing, variadic import-argument ranges
+	rgl := rng.Fork()
+	for i := 0; i < nSort/8; i++ {
+		emit(genEnvCase(rgl))
+	}
+	for i := 0; i < nSort/16; i++ {
+		emit(genVarCase(rgl))
+	}
 	// ---- token-level mutations of the corpus
 	rm := rng.Fork()
 	for i := 0; i < nMut && len(p.corpus) > 0; i++ {
